@@ -133,3 +133,61 @@ fn inner_recv_reset(zero: bool) {
     std::mem::forget(send_buffer);
     std::mem::forget(inner);
 }
+
+// ---------------------------------------------------------------------------
+// C20: lock order of a handle operation, observed on the real method
+// ---------------------------------------------------------------------------
+pub(crate) static mut BUF_LOCKED: bool = false;
+pub(crate) static mut ORDER_VIOLATION: bool = false;
+pub(crate) static mut LOCKS_TAKEN: u8 = 0;
+
+/// Stub for `std::sync::Mutex::lock`: takes the lock through `try_lock` (so the guard is
+/// the real one) and records the acquisition order.  The two mutexes of the streams layer
+/// guard values of different size (`Inner` vs `Buffer<Frame<B>>`), which is how the stub
+/// tells them apart.  Rule (the order every other site follows, and the only one that
+/// cannot deadlock against the connection task): `inner` before `send_buffer`.
+pub(crate) fn stub_mutex_lock_ordered<T>(m: &std::sync::Mutex<T>) -> std::sync::LockResult<std::sync::MutexGuard<'_, T>> {
+    let is_inner = std::mem::size_of::<T>() == std::mem::size_of::<Inner>();
+    unsafe {
+        LOCKS_TAKEN += 1;
+        if is_inner {
+            if BUF_LOCKED {
+                ORDER_VIOLATION = true;
+            }
+        } else {
+            BUF_LOCKED = true;
+        }
+    }
+    match m.try_lock() {
+        Ok(g) => Ok(g),
+        Err(std::sync::TryLockError::Poisoned(p)) => Err(p),
+        Err(std::sync::TryLockError::WouldBlock) => panic!("mutex already held in a sequential harness"),
+    }
+}
+
+/// `Actions::send_reset` is not the subject of the lock-order obligation
+pub(crate) fn stub_actions_send_reset_noop<B>(_a: &mut Actions, _s: store::Ptr, _r: Reason, _i: Initiator, _c: &mut Counts, _b: &mut Buffer<Frame<B>>) -> Result<(), crate::proto::error::GoAway> {
+    Ok(())
+}
+
+pub fn c20_lock_order_send_reset() {
+    assert!(std::mem::size_of::<Inner>() != std::mem::size_of::<Buffer<Frame<SymBuf>>>(), "harness cannot tell the two mutexes apart");
+    let role = peer::Dyn::Client;
+    let mut inner = mk_inner(role);
+    let id = StreamId::from(1);
+    let mut stream = Stream::new(id, 0, 0);
+    st_h::set_inner_open_streaming(&mut stream.state);
+    stream.ref_count = 1;
+    let key = inner.store.insert(id, stream).key();
+    let inner = Arc::new(Mutex::new(inner));
+    let send_buffer: Arc<SendBuffer<SymBuf>> = Arc::new(SendBuffer { inner: Mutex::new(crate::proto::streams::buffer::verif_h::with_capacity(4)) });
+    let mut sr = StreamRef { opaque: OpaqueStreamRef { inner, key }, send_buffer };
+    let code: u32 = kani::any();
+    sr.send_reset(code.into());
+    unsafe {
+        assert!(LOCKS_TAKEN == 2, "handle operation did not take both locks");
+        assert!(!ORDER_VIOLATION, "C20: send_buffer locked before inner - lock-order inversion against the connection task (deadlock)");
+    }
+    kani::cover!(true, "end");
+    std::mem::forget(sr);
+}
